@@ -9,6 +9,7 @@ from .common import CACHE, build_lean, log
 PEGDIFF_PROPS = set(relations.RELATIONS)
 
 RULES = {
+    'C20': 'history/threads: every input of the pegdiff suite parsed again in a shuffled order after all the others (twice), then all of them from 16 threads with randomised yields (each thread a random half, so the same parser type and the same input run concurrently); every re-execution must reproduce the first result exactly (tree, error, tracer log, hook log); distinct per (grammar, outcome)',
     'C12': 'frontend: generated grammar ASTs printed under random layouts (whitespace incl. CR/FF, # comments between any two tokens, both quote styles, every escape form, glued punctuation) and a mutated malformed stream; Debug of Grammar::from_str vs the generating AST vs the model front end (eval on the meta-grammar extracted from grammar.ebnf); distinct per (text, layout style) / (mutant outcome, error position)',
     'C17': 'bootstrap: stage 2 (current generator on grammar.ebnf, rustfmt) vs the shipped generated.rs below the header; shipped front end vs model front end on the C12 corpus (valid and invalid texts: same structure or same error); distinct per text',
     'C03': 'gendiff: generated grammars (valid family, several derive sets): declared public types extracted from the emitted code vs Compile.decls; rustc acceptance of every parser of the pegdiff suite under forbid(unsafe_code); distinct per (grammar, number of declarations)',
